@@ -393,6 +393,7 @@ func newScenario() *scenario {
 	must(err)
 
 	// ctx (the root) is not written any more from here on
+	s.buildUserPairBase(ctx)
 	must(s.groups("B", func(variantT) (sdk.Context, error) { return world.Fork(ctx), nil }))
 	for _, k := range []string{kSLC, kValset, kUpload, kUSC} {
 		if s.tg[k] == nil {
